@@ -1,40 +1,91 @@
-(* Model of what the `except ConductorAbort` clauses of Executor.run_plan,
-   Executor._launch_ops_if_able and RunTaskExecutable.start_execution do, as a function of the
-   point at which the signal handler raised (after the repairs of D7):
-     - between two statements of the main loop, or while waiting:   state s of Model/Exec.v;
-     - inside the launch of operation o, at one of the points below. *)
-From Coq Require Import List Arith Bool.
-From Conductor Require Import Model.Loader Model.Planner Model.Exec.
+(* Model of the abort handling around the launch of one operation, after the repair D35:
+     conductor/errors/signal.py   _terminate_handler: while _defer_depth > 0 the signal is only noted (_abort_pending),
+                                  otherwise ConductorAbort is raised;  abort_deferred: depth += 1 ... depth -= 1 and, when
+                                  the outermost region is left with an abort pending, raise ConductorAbort;
+     Executor._launch_ops_if_able the statements of the `with abort_deferred():` block, in program order;
+     Executor.run_plan            `except ConductorAbort: self._inflight_ops.terminate_processes()` -- SIGTERM to the
+                                  process group of every REGISTERED process.
+   Because the handler never raises inside the region, a signal that arrives in the middle of a statement of the block
+   (e.g. inside subprocess.Popen() after the fork) acts exactly like one that arrives before or after that statement; the
+   model therefore lets a signal arrive before each statement.  [existing]: operations whose process exists and has not been
+   reaped; [registered]: operations in _InflightOperations._processes. *)
+From Coq Require Import List Arith Bool NArith.
 Import ListNotations.
 
-Inductive launch_point :=
-| BeforeSpawn          (* in start_execution before Popen() is called (mkdir, env, OutputHandler) *)
-| InsidePopenAfterFork (* inside subprocess.Popen() after the child exists, before Popen() returns *)
-| AfterPopenReturned   (* `process` is bound; still inside start_execution *)
-| ReturnedNotRegistered(* start_execution returned, `handle` is bound, add_op not yet executed *)
-| Registered.          (* add_op executed (slot possibly not yet popped) *)
+Inductive instr :=
+| IEnter       (* __enter__ of abort_deferred: _defer_depth += 1 *)
+| IOther       (* a statement that neither creates nor registers a process *)
+| IStart       (* handle = next_op.start_execution(ctx, slot) *)
+| IRegister    (* self._inflight_ops.add_op(handle, next_op) *)
+| ILeave.      (* __exit__: _defer_depth -= 1; if it is 0 and an abort is pending: raise ConductorAbort *)
 
-Inductive abort_point :=
-| AtLoop (s : xstate)
-| InLaunch (s : xstate) (o : nat) (lp : launch_point).   (* s = state before this launch *)
+Definition decode (c : N) : instr :=
+  match c with 0%N => IEnter | 2%N => IStart | 3%N => IRegister | 4%N => ILeave | _ => IOther end.
 
-(* task processes that exist at that point (operations whose process has been spawned and not reaped) *)
-Definition live (pt : abort_point) : list nat :=
-  match pt with
-  | AtLoop s => map fst (procs s)
-  | InLaunch s o BeforeSpawn => map fst (procs s)
-  | InLaunch s o _ => map fst (procs s) ++ [o]
+(* what start_execution does for the operation being launched *)
+Inductive lkind :=
+| LProcess     (* spawns a process (run_command / run_experiment) *)
+| LSync        (* does its work synchronously (combine): no process *)
+| LFails.      (* raises a ConductorError before a process exists: the rest of the block is skipped *)
+
+Record lstate := { depth : nat; pending : bool; existing : list nat; registered : list nat }.
+
+Inductive result :=
+| Cont (s : lstate)
+| Abort (killed live : list nat).   (* ConductorAbort reaches run_plan: SIGTERM to [killed] while the processes [live] exist *)
+
+(* _terminate_handler *)
+Definition deliver (s : lstate) : result :=
+  if Nat.ltb 0 (depth s)
+  then Cont {| depth := depth s; pending := true; existing := existing s; registered := registered s |}
+  else Abort (registered s) (existing s).
+
+Definition with_depth (d : nat) (s : lstate) : lstate :=
+  {| depth := d; pending := pending s; existing := existing s; registered := registered s |}.
+
+(* the launch of operation o; sigs: does a signal arrive before the next statement (head first)?; skipping: an
+   exception is propagating to the end of the block *)
+Fixpoint run (o : nat) (k : lkind) (prog : list instr) (sigs : list bool) (skipping : bool) (s : lstate) : result :=
+  match prog with
+  | [] => Cont s
+  | i :: prog' =>
+    match (if hd false sigs then deliver s else Cont s) with
+    | Abort kl lv => Abort kl lv
+    | Cont s1 =>
+      let next := run o k prog' (tl sigs) in
+      match i with
+      | ILeave =>
+        let d := pred (depth s1) in
+        if Nat.eqb d 0 && pending s1 then Abort (registered s1) (existing s1) else next false (with_depth d s1)
+      | IEnter => if skipping then next true s1 else next false (with_depth (S (depth s1)) s1)
+      | IOther => next skipping s1
+      | IStart =>
+        if skipping then next true s1 else
+        match k with
+        | LProcess => next false {| depth := depth s1; pending := pending s1; existing := existing s1 ++ [o]; registered := registered s1 |}
+        | LSync => next false s1
+        | LFails => next true s1
+        end
+      | IRegister =>
+        if skipping then next true s1 else
+        match k with
+        | LProcess => next false {| depth := depth s1; pending := pending s1; existing := existing s1; registered := registered s1 ++ [o] |}
+        | _ => next false s1
+        end
+      end
+    end
   end.
 
-(* process groups that receive SIGTERM from the abort handlers *)
-Definition killed (pt : abort_point) : list nat :=
-  match pt with
-  | AtLoop s => map fst (procs s)                                  (* run_plan: terminate_processes *)
-  | InLaunch s o BeforeSpawn => map fst (procs s)                  (* `process is None`: nothing of o to kill *)
-  | InLaunch s o InsidePopenAfterFork => map fst (procs s)         (* `process` still None: o is missed (D7') *)
-  | InLaunch s o AfterPopenReturned => o :: map fst (procs s)      (* start_execution kills o's group *)
-  | InLaunch s o ReturnedNotRegistered => map fst (procs s) ++ [o] (* executor registers the handle, run_plan kills *)
-  | InLaunch s o Registered => map fst (procs s) ++ [o]
+(* the shape of the block the theorems are proved for: enter, statements, start_execution, statements, add_op,
+   statements, leave *)
+Fixpoint shape (st : nat) (prog : list instr) : bool :=
+  match prog with
+  | [] => false
+  | IEnter :: p => match st with 0 => shape 1 p | _ => false end
+  | IOther :: p => match st with 0 => false | _ => shape st p end
+  | IStart :: p => match st with 1 => shape 2 p | _ => false end
+  | IRegister :: p => match st with 2 => shape 3 p | _ => false end
+  | ILeave :: p => match st, p with 3, [] => true | _, _ => false end
   end.
 
 Definition same_set (a b : list nat) : Prop := forall x, In x a <-> In x b.
